@@ -27,6 +27,10 @@ func TestSim(t *testing.T) {
 		rc = replayMain()
 	case "aggregate":
 		rc = aggregateMain()
+	case "history":
+		rc = historyMain()
+	case "histchild":
+		rc = histChildMain()
 	default:
 		rc = 2
 	}
